@@ -9,9 +9,16 @@
 //     committed spec/udp_gates.json so that a field dropped on BOTH sides is seen.
 //  2. pool histories: CreatePack(type, random version) / fill a random SUBSET of the fields
 //     (all, one, all but one, each with probability q) / ClosePack / CreatePack at another
-//     version; on pointer-identical reuse every field must be blank.
+//     version; every acquired pack must be blank in every field. Also steps of the histories
+//     (poolfail.go): a valid datagram through ReadPack / ToPack (the decoded pack must equal
+//     what a never-pooled pack makes of the same bytes) and FAILED decodes — strict prefixes
+//     of a valid datagram cut inside the header / inside each field / one byte short, a
+//     declared version that wants more bytes than the datagram carries, payloads Process
+//     fails on — under recover, followed by CreatePack at several versions and by a valid
+//     datagram at a version carrying fewer fields.
 //     2b (poolconc.go): the same pools used by 4…4×GOMAXPROCS goroutines at once: an acquired
-//     pack must be blank and must keep its owner's values until the owner releases it.
+//     pack must be blank and must keep its owner's values until the owner releases it; in a
+//     slice of the configurations every 8th / 16th iteration starts with a ToPack that fails.
 //  3. password masking: unique marker values under the key "password" must not occur in
 //     any string of the pack after Process().
 //
@@ -469,8 +476,19 @@ func poolSection(c *vlib.Ctx) {
 	defer debug.SetGCPercent(debug.SetGCPercent(-1))
 
 	released := map[string]map[uintptr]udp.UdpPack{} // keeps released objects alive: an address identifies one object
+	finfo := map[string]*failInfo{}
 	for _, k := range pooled {
 		released[k.Name] = map[uintptr]udp.UdpPack{}
+		finfo[k.Name] = k.probeFailInfo()
+		if !finfo[k.Name].readFailable && !finfo[k.Name].processFailable {
+			c.SetAdd("failed_decode_types_without_failing_input", k.Name)
+		}
+		if finfo[k.Name].processFailable {
+			c.SetAdd("failed_decode_types_whose_Process_can_fail", k.Name)
+		}
+		for _, rc := range finfo[k.Name].recipes {
+			c.SetAdd("failed_decode_fields_whose_text_makes_Process_fail", k.Name+"."+k.Fields[rc.field].Name+"@"+rc.fam)
+		}
 	}
 	objID := map[uintptr]int{}
 	// what the previous use of a released object was: the version it was acquired at and how
@@ -480,12 +498,27 @@ func poolSection(c *vlib.Ctx) {
 		mode string
 	}
 	lastUse := map[uintptr]use{}
+	// failed decodes so far per type, and their number when an object was released: a failed
+	// decode between an object's release and an acquisition (or an object this monitor never
+	// released) puts a residue under the key …/after-failed-read
+	failSeq := map[string]int{}
+	relSeq := map[uintptr]int{}
 	done := 0
 	c.Cases("pool", c.N(len(pooled)*256, len(pooled)*8000), func(i int, r *vlib.Rand) {
 		k := pooled[int(vlib.Mix(uint64(i))%uint64(len(pooled)))]
 		rel := released[k.Name]
+		fi := finfo[k.Name]
 		var held []udp.UdpPack
 		var ops []string
+		sinceFail := 0 // 1: the last step was a failed decode, the next acquisition is the one right after it
+		var lastFailed *failedDatagram
+		failedDetail := func(m map[string]interface{}, suffix string) map[string]interface{} {
+			if suffix != "" && lastFailed != nil {
+				m["last_failed_datagram"] = fmt.Sprintf("%x", lastFailed.b)
+				m["last_failed_decode"] = lastFailed.describe() + " panic: " + lastFailed.pn
+			}
+			return m
+		}
 		id := func(p udp.UdpPack) int {
 			a := reflect.ValueOf(p).Pointer()
 			if _, ok := objID[a]; !ok {
@@ -498,21 +531,25 @@ func poolSection(c *vlib.Ctx) {
 			held = append(held[:j], held[j+1:]...)
 			ops = append(ops, fmt.Sprintf("ClosePack(obj%d)", id(p)))
 			udp.ClosePack(p)
-			rel[reflect.ValueOf(p).Pointer()] = p
+			a := reflect.ValueOf(p).Pointer()
+			rel[a] = p
+			relSeq[a] = failSeq[k.Name]
 			c.Count("pool_releases", 1)
 		}
-		steps := r.Range(30, 80)
-		for s := 0; s < steps; s++ {
-			if len(held) > 0 && (len(held) >= 6 || r.Intn(100) < 55) {
-				closeOne(r.Intn(len(held)))
-				continue
-			}
-			ver := versions[r.Intn(len(versions))]
-			p := udp.CreatePack(k.Code, ver)
-			c.Count("pool_acquires", 1)
+		// acquired: bookkeeping common to CreatePack and ReadPack; returns whether the object is
+		// one this monitor released, and the key suffix a residue found in it gets
+		acquired := func(p udp.UdpPack, ver int32, how string) (reused bool, suffix string) {
 			addr := reflect.ValueOf(p).Pointer()
-			_, reused := rel[addr]
-			ops = append(ops, fmt.Sprintf("CreatePack(%d,%d)=obj%d reused=%v", k.Code, ver, id(p), reused))
+			_, reused = rel[addr]
+			ops = append(ops, fmt.Sprintf("%s=obj%d reused=%v", how, id(p), reused))
+			if failSeq[k.Name] > 0 && (!reused || failSeq[k.Name] > relSeq[addr]) {
+				suffix = "/after-failed-read"
+			}
+			if sinceFail > 0 {
+				c.Count("acquisitions_judged_right_after_a_failed_decode", 1)
+				c.Count("acquisitions_judged_right_after_a_failed_decode_"+k.Name, 1)
+				sinceFail = 0
+			}
 			if reused {
 				delete(rel, addr)
 				c.Count("pool_reuse_"+k.Name, 1)
@@ -530,24 +567,160 @@ func poolSection(c *vlib.Ctx) {
 					}
 					c.SetAdd("pool_version_transitions", family(u.ver)+">"+family(ver))
 				}
-				e := elemOf(p)
-				if p.GetVersion() != ver {
-					c.Fail(k.Name+".Ver:pool-residue", fmt.Sprintf("CreatePack(%d, %d) returned a pooled %s with version %d", k.Code, ver, k.Name, p.GetVersion()),
-						map[string]interface{}{"type": k.Name, "history": ops})
-				}
-				for fi := range k.Fields {
-					f := &k.Fields[fi]
-					got := e.FieldByIndex(f.Index)
-					c.Count("pool_fields_compared", 1)
-					if !k.isBlank(f, got) {
-						c.Fail(k.Name+"."+f.Name+":pool-residue",
-							fmt.Sprintf("%s re-acquired from the pool still holds %s = %s from its previous use (a new pack has %s)", k.Name, f.Name, render(got), render(k.fresh.FieldByIndex(f.Index))),
-							map[string]interface{}{"type": k.Name, "field": f.Name, "value": render(got), "fresh": render(k.fresh.FieldByIndex(f.Index)),
-								"after_Clear_of_fresh": render(k.cleared.FieldByIndex(f.Index)), "history": ops, "pack": k.dump(p)})
+			}
+			return
+		}
+		create := func(ver int32) udp.UdpPack {
+			p := udp.CreatePack(k.Code, ver)
+			c.Count("pool_acquires", 1)
+			_, suffix := acquired(p, ver, fmt.Sprintf("CreatePack(%d,%d)", k.Code, ver))
+			// every acquisition is judged: a pack the pool hands out is blank whether this monitor
+			// released it, something else did, or it is new
+			e := elemOf(p)
+			if p.GetVersion() != ver {
+				c.Fail(k.Name+".Ver:pool-residue"+suffix, fmt.Sprintf("CreatePack(%d, %d) returned a pooled %s with version %d", k.Code, ver, k.Name, p.GetVersion()),
+					failedDetail(map[string]interface{}{"type": k.Name, "history": ops}, suffix))
+			}
+			for fx := range k.Fields {
+				f := &k.Fields[fx]
+				got := e.FieldByIndex(f.Index)
+				c.Count("pool_fields_compared", 1)
+				if !k.isBlank(f, got) {
+					what := fmt.Sprintf("%s re-acquired from the pool still holds %s = %s from its previous use (a new pack has %s)", k.Name, f.Name, render(got), render(k.fresh.FieldByIndex(f.Index)))
+					if suffix != "" {
+						what = fmt.Sprintf("%s acquired with CreatePack after a ReadPack/ToPack of the same type had failed holds %s = %s (a new pack has %s)", k.Name, f.Name, render(got), render(k.fresh.FieldByIndex(f.Index)))
 					}
+					c.Fail(k.Name+"."+f.Name+":pool-residue"+suffix, what,
+						failedDetail(map[string]interface{}{"type": k.Name, "field": f.Name, "value": render(got), "fresh": render(k.fresh.FieldByIndex(f.Index)),
+							"after_Clear_of_fresh": render(k.cleared.FieldByIndex(f.Index)), "history": ops, "pack": k.dump(p)}, suffix))
 				}
 			}
-			lastUse[addr] = use{ver, "none"}
+			lastUse[reflect.ValueOf(p).Pointer()] = use{ver, "none"}
+			return p
+		}
+		// readGood: a valid datagram through ReadPack / ToPack — an acquisition whose fill is the
+		// decode. The decoded pack must be what a fresh pack makes of the same bytes.
+		readGood := func(ver int32) {
+			b, mode := k.goodDatagram(r, ver)
+			if b == nil {
+				return
+			}
+			fa, st, _ := decodeFresh(k, ver, b)
+			if st != "" {
+				c.Count("pool_read_datagrams_not_decodable", 1)
+				return
+			}
+			var p udp.UdpPack
+			via := "ReadPack"
+			if r.Bool() {
+				via = "ToPack"
+			}
+			pn := vlib.Catch(func() {
+				if via == "ToPack" {
+					p = udp.ToPack(k.Code, ver, b)
+				} else {
+					p = udp.ReadPack(k.Code, ver, io.NewDataInputX(b))
+				}
+			})
+			if pn != nil || p == nil {
+				// a fresh pack decodes it: whatever made the pooled pack fail is not judged here
+				c.Count("pool_read_failed_on_pooled_pack_only", 1)
+				ops = append(ops, fmt.Sprintf("%s(%d,%d,%dB) panicked", via, k.Code, ver, len(b)))
+				return
+			}
+			fb, _, _ := decodeFresh(k, ver, b)
+			_, suffix := acquired(p, ver, fmt.Sprintf("%s(%d,%d,%s)", via, k.Code, ver, vlib.Hex(b)))
+			c.Count("pool_acquires_by_read", 1)
+			c.Count("pool_acquires_by_read_"+k.Name, 1)
+			if p.GetVersion() != ver {
+				c.Fail(k.Name+".Ver:pool-residue"+suffix, fmt.Sprintf("%s(%d, %d, …) returned a %s with version %d", via, k.Code, ver, k.Name, p.GetVersion()),
+					map[string]interface{}{"type": k.Name, "history": ops})
+			}
+			cmp, skip := k.compareDecoded(p, fa, fb, func(f *fieldInfo, got, want reflect.Value) {
+				c.Fail(k.Name+"."+f.Name+":pool-residue"+suffix,
+					fmt.Sprintf("%s decoded by %s at version %d from a pooled pack holds %s = %s; a new pack decoding the same bytes holds %s", k.Name, via, ver, f.Name, render(got), render(want)),
+					failedDetail(map[string]interface{}{"type": k.Name, "field": f.Name, "value": render(got), "fresh_decode": render(want), "version": ver,
+						"datagram": fmt.Sprintf("%x", b), "history": ops, "pack": k.dump(p), "fresh_pack": k.dump(fa)}, suffix))
+			})
+			c.Count("pool_read_fields_compared", cmp)
+			c.Count("pool_read_fields_not_deterministic", skip)
+			lastUse[reflect.ValueOf(p).Pointer()] = use{ver, "read-" + mode}
+			held = append(held, p)
+		}
+		// failedDecode: ToPack / ReadPack on a datagram that fails, under recover
+		failedDecode := func() bool {
+			fd := k.buildFailing(c, r, fi)
+			if fd == nil {
+				return false
+			}
+			var p udp.UdpPack
+			via := "ReadPack"
+			if r.Bool() {
+				via = "ToPack"
+			}
+			pn := vlib.Catch(func() {
+				if via == "ToPack" {
+					p = udp.ToPack(k.Code, fd.dv, fd.b)
+				} else {
+					p = udp.ReadPack(k.Code, fd.dv, io.NewDataInputX(fd.b))
+				}
+			})
+			if pn == nil && p != nil {
+				// decoded by the pooled pack although a fresh one fails on it: not judged; the
+				// pack is an acquisition like any other and is released later
+				c.Count("failed_decode_succeeded_on_pooled_pack", 1)
+				acquired(p, fd.dv, fmt.Sprintf("%s(%d,%d,%s)", via, k.Code, fd.dv, vlib.Hex(fd.b)))
+				lastUse[reflect.ValueOf(p).Pointer()] = use{fd.dv, "read-all"}
+				held = append(held, p)
+				return false
+			}
+			failSeq[k.Name]++
+			sinceFail = 1
+			lastFailed = fd
+			ops = append(ops, fmt.Sprintf("%s(%d,%d,%s) FAILED [%s]", via, k.Code, fd.dv, vlib.Hex(fd.b), fd.describe()))
+			countFailed(c, k, fd, "")
+			c.Count("failed_decodes_via_"+via, 1)
+			// what follows: CreatePack at several versions and / or a valid datagram at a version
+			// carrying fewer fields
+			x := r.Intn(3)
+			if x != 1 {
+				for n := r.Range(1, 3); n > 0 && len(held) < 8; n-- {
+					ver := versions[r.Intn(len(versions))]
+					p := create(ver)
+					c.Count("failed_decode_followed_by_CreatePack", 1)
+					held = append(held, p)
+				}
+			}
+			if x != 0 {
+				ver, fewer := fi.fewerVersion(r, fd.dv)
+				if fewer {
+					c.Count("failed_decode_followed_by_read_at_version_with_fewer_fields", 1)
+					c.Count("failed_decode_followed_by_read_at_version_with_fewer_fields_"+k.Name, 1)
+				} else {
+					c.Count("failed_decode_followed_by_read_at_any_version", 1)
+				}
+				readGood(ver)
+			}
+			return true
+		}
+		steps := r.Range(30, 80)
+		for s := 0; s < steps; s++ {
+			if len(held) > 0 && (len(held) >= 6 || r.Intn(100) < 55) {
+				closeOne(r.Intn(len(held)))
+				continue
+			}
+			switch y := r.Intn(100); {
+			case y < 16:
+				if failedDecode() {
+					continue
+				}
+			case y < 24:
+				readGood(versions[r.Intn(len(versions))])
+				continue
+			}
+			ver := versions[r.Intn(len(versions))]
+			p := create(ver)
+			addr := reflect.ValueOf(p).Pointer()
 			if r.Intn(10) != 0 {
 				mode, mask, names := k.fillPlan(r)
 				k.fillResidue(r, p, mask)
@@ -602,6 +775,7 @@ func poolSection(c *vlib.Ctx) {
 			c.Floor("pool_reuse_after_partial_fill_"+k.Name, min, c.Counter("pool_reuse_after_partial_fill_"+k.Name))
 		}
 		c.Floor("pool_reuse_at_other_version", min, c.Counter("pool_reuse_at_other_version"))
+		poolFailFloors(c, pooled, finfo)
 	}
 }
 
